@@ -78,6 +78,14 @@ MUTANTS = {
         ('vod-mod', 'dashlive/mpeg/dash/representation.py', '            mod_segment = 1 + segment_num - self.start_number\n', '            mod_segment = segment_num - self.start_number\n'),
     ],
     'C02': [
+        ('tl-no-drift', 'dashlive/mpeg/dash/representation.py', '            if mod_segment == self.num_media_segments:\n                duration += drift\n', ''),
+        ('tl-drift-sign', 'dashlive/mpeg/dash/representation.py', '            drift = ref_duration_tc - self.mediaDuration\n', '            drift = self.mediaDuration - ref_duration_tc\n'),
+        ('tl-wrap', 'dashlive/mpeg/dash/representation.py', '            mod_segment += 1\n            if mod_segment > self.num_media_segments:\n                mod_segment = 1\n        output_s_node', '            mod_segment += 1\n            if mod_segment >= self.num_media_segments:\n                mod_segment = 1\n        output_s_node'),
+        ('tl-start-origin', 'dashlive/mpeg/dash/representation.py', '                s_node.start = seg_start_time\n', '                s_node.start = origin_time\n'),
+        ('tl-merge-all', 'dashlive/mpeg/dash/representation.py', '            elif duration != s_node.duration:\n', '            elif duration > s_node.duration:\n'),
+        ('tl-count', 'dashlive/mpeg/dash/representation.py', '            s_node.count += 1\n            dur += duration', '            s_node.count += 1\n            dur += seg.duration'),
+        ('tl-end-le', 'dashlive/mpeg/dash/representation.py', '        while dur < end:', '        while dur <= end:'),
+        ('tl-start-tc', 'dashlive/mpeg/dash/representation.py', '                self._timing.firstAvailableTime, self.timescale)', '                self._timing.elapsedTime, self.timescale)'),
         ('mdut-order', 'dashlive/mpeg/dash/reference.py', 'return self.media_duration * timescale // self.timescale', 'return self.media_duration // self.timescale * timescale'),
         ('csft-swap', 'dashlive/mpeg/dash/representation.py', '        return (mod_segment, origin_time, seg_start_tc)', '        return (mod_segment, seg_start_tc, origin_time)'),
         ('gsi-le', 'dashlive/mpeg/dash/representation.py', '.duration // 2)) < timecode:', '.duration // 2)) <= timecode:'),
